@@ -76,6 +76,11 @@ type world struct {
 	root    string
 	cfgs    map[int]*Config
 	cfgJSON map[int]*JSONConfig
+	// cfgs whose only option is Dir: every other call through them goes through the PACKAGE-LEVEL
+	// functions (MatchSnapshot(t, …) etc.), with defaultConfig.snapsDir pointed at the world's
+	// directory for the duration of the call, so that the exported wrappers are exercised too
+	cfgPlain map[int]bool
+	pkgTurn  bool
 	ts      map[int]*mockT
 	realEnv bool
 	out     *bufio.Writer
@@ -476,6 +481,37 @@ func (w *world) result(op string, t *mockT, before map[string]bool, stdout strin
 	fmt.Fprintf(w.out, "%s ev=%s w=%s d=%s out=%s\n", op, ev, hexList(wr), hexList(rm), hx(stdout))
 }
 
+// viaPackage: should this call go through the package-level function?
+func (w *world) viaPackage(n int) bool {
+	if !w.cfgPlain[n] {
+		return false
+	}
+	w.pkgTurn = !w.pkgTurn
+	return w.pkgTurn
+}
+
+// withDefaultDir runs a package-level Match* call with defaultConfig.snapsDir set to the
+// directory of c; if the call nevertheless wrote next to this source file (the library's
+// built-in default location) the files are removed again and the call is flagged.
+func (w *world) withDefaultDir(c *Config, t *mockT, f func()) {
+	old := defaultConfig
+	defaultConfig.snapsDir = c.snapsDir
+	_, self, _, _ := runtime.Caller(0)
+	stray := filepath.Join(filepath.Dir(self), "__snapshots__")
+	before, _ := filepath.Glob(filepath.Join(stray, "zz_verif_*"))
+	func() {
+		defer func() { defaultConfig = old }()
+		f()
+	}()
+	after, _ := filepath.Glob(filepath.Join(stray, "zz_verif_*"))
+	if len(after) > len(before) {
+		for _, p := range after {
+			os.Remove(p)
+		}
+		t.events = append(t.events, "X:"+hx("package-level call ignored defaultConfig and wrote into the source tree"))
+	}
+}
+
 func (w *world) exec(line string) {
 	tok := strings.Fields(line)
 	if len(tok) == 0 {
@@ -526,6 +562,7 @@ func (w *world) exec(line string) {
 			w.cfgJSON[n] = &jc
 		}
 		w.cfgs[n] = WithConfig(opts...)
+		w.cfgPlain[n] = len(opts) == 1
 		fmt.Fprintf(w.ann, "cfg %d %s %s %s %s\n", n, hx(dir), tok[3], tok[4], tok[5])
 		fmt.Fprintln(w.out, "cfg ok")
 	case "begin":
@@ -539,7 +576,11 @@ func (w *world) exec(line string) {
 			vals[i] = unhx(h)
 		}
 		before := w.stamp()
-		c.MatchSnapshot(t, vals...)
+		if w.viaPackage(atoi(tok[1])) {
+			w.withDefaultDir(c, t, func() { MatchSnapshot(t, vals...) })
+		} else {
+			c.MatchSnapshot(t, vals...)
+		}
 		// the model takes *formatted* text: value formatting (kr/pretty) is a parameter
 		fm := make([]string, len(vals))
 		for i, v := range vals {
@@ -569,9 +610,14 @@ func (w *world) exec(line string) {
 			input = goValue(form, doc)
 		}
 		before := w.stamp()
-		if tok[0] == "json" {
+		switch via := w.viaPackage(atoi(tok[1])); {
+		case tok[0] == "json" && via:
+			w.withDefaultDir(c, t, func() { MatchJSON(t, input, jm...) })
+		case tok[0] == "json":
 			c.MatchJSON(t, input, jm...)
-		} else {
+		case via:
+			w.withDefaultDir(c, t, func() { MatchStandaloneJSON(t, input, jm...) })
+		default:
 			c.MatchStandaloneJSON(t, input, jm...)
 		}
 		if bs, ok := input.([]byte); ok && !bytes.Equal(bs, doc) {
@@ -601,7 +647,11 @@ func (w *world) exec(line string) {
 			input = goValue(form, doc)
 		}
 		before := w.stamp()
-		c.MatchYAML(t, input, ym...)
+		if w.viaPackage(atoi(tok[1])) {
+			w.withDefaultDir(c, t, func() { MatchYAML(t, input, ym...) })
+		} else {
+			c.MatchYAML(t, input, ym...)
+		}
 		if bs, ok := input.([]byte); ok && !bytes.Equal(bs, doc) {
 			t.events = append(t.events, "X:"+hx("caller's []byte was modified by the call"))
 		}
@@ -610,7 +660,11 @@ func (w *world) exec(line string) {
 	case "sasnap":
 		c, t := w.cfgs[atoi(tok[1])], w.ts[atoi(tok[2])]
 		before := w.stamp()
-		c.MatchStandaloneSnapshot(t, unhx(tok[3]))
+		if w.viaPackage(atoi(tok[1])) {
+			w.withDefaultDir(c, t, func() { MatchStandaloneSnapshot(t, unhx(tok[3])) })
+		} else {
+			c.MatchStandaloneSnapshot(t, unhx(tok[3]))
+		}
 		fmt.Fprintf(w.ann, "sasnap %s %s %s\n", tok[1], tok[2], hx(krpretty.Sprint(unhx(tok[3]))))
 		w.result("sasnap", t, before, "")
 	case "end":
@@ -796,7 +850,7 @@ func TestVerifHarness(t *testing.T) {
 			t.Fatal(err)
 		}
 		root, _ = filepath.EvalSymlinks(root)
-		w = &world{root: root, cfgs: map[int]*Config{}, cfgJSON: map[int]*JSONConfig{}, ts: map[int]*mockT{},
+		w = &world{root: root, cfgs: map[int]*Config{}, cfgJSON: map[int]*JSONConfig{}, cfgPlain: map[int]bool{}, ts: map[int]*mockT{},
 			realEnv: os.Getenv("VERIF_REALENV") == "1", out: bufio.NewWriter(outF), ann: bufio.NewWriter(annF)}
 		testsRegistry = newRegistry()
 		standaloneTestsRegistry = newStandaloneRegistry()
